@@ -174,9 +174,48 @@ def run(ctx):
                 pvlib.report_violation(ctx, f"warc_parallel:{j}:{z}:{hx(data)[:40]}", {"argv": ["warc_parallel"] + args + ["cat"], "stdin_hex": hx(data)[:200000], "status": st,
                                        "stderr": err.decode(errors="replace")[-300:]}, summary=f"warc_parallel {' '.join(args)} cat: {problem}")
                 break
+    # several -i inputs (one reader thread each, all producing into the same queue) under a legal but unusual schedule:
+    # every third pthread_mutex_unlock in warc_parallel is followed by a short sleep (nothing is dropped or reordered)
+    shim = os.path.join(ctx.bdir, "harness", "faults_preload.so")
+    for rnd in range(3 if ctx.tier == "quick" else 20):
+        files, allrecs = [], []
+        for k in range(4):
+            rs = [rec(bytes([65 + ((i + k) % 26)]) * rng.choice([0, 1, 100, 5000, 70000 if i % 9 == 0 else 10]),
+                      (b"WARC-Target-URI: r%d-f%d-n%d" % (rnd, k, i),)) for i in range(40 if ctx.tier == "quick" else 60)]
+            f = os.path.join(ctx.tmp, "in%d.warc" % k)
+            open(f, "wb").write(b"".join(rs))
+            files.append(f)
+            allrecs += rs
+        env = pvlib.san_env({"LD_PRELOAD": shim, "PV_DELAY_AFTER_UNLOCK_US": "3000:3", "PV_DELAY_ONLY": "warc_parallel"})
+        env["ASAN_OPTIONS"] += ":verify_asan_link_order=0"
+        argv = ["warc_parallel", "-j", "3", "-i"] + files + ["--", "cat"]
+        st, out, err = pvlib.run_tool([ctx.bin("warc_parallel")] + argv[1:], b"", env=env, timeout=300)
+        ctx.count("warc_parallel-multi-input", 1, [(rnd, len(allrecs))])
+        got, e = frame_split(out) if st == 0 else ([], None)
+        if st != 0 or e or sorted(got) != sorted(allrecs):
+            lost = len([r for r in allrecs if r not in got]) if st == 0 and not e else None
+            pvlib.report_violation(ctx, f"warc_parallel-multi:{rnd}", {
+                "argv": argv, "generator": f"4 files x {len(allrecs) // 4} records, seed {ctx.seed} round {rnd}", "env": {"PV_DELAY_AFTER_UNLOCK_US": "3000:3", "PV_DELAY_ONLY": "warc_parallel"},
+                "input_files_hex": [hx(open(f_, "rb").read()) for f_ in files], "status": st, "records_in": len(allrecs), "records_out": len(got), "input_records_missing_from_output": lost, "framing_error": e,
+                "stderr": err.decode(errors="replace")[-300:]},
+                summary=f"warc_parallel -j 3 -i <4 files> -- cat under a legal schedule (sleep after every 3rd mutex unlock): status {st}, "
+                        f"{len(got)} of {len(allrecs)} records out, {lost} input records missing, framing error {e}")
+            break
 
 
 def replay(ctx, rp):
+    if "input_files_hex" in rp:
+        files = []
+        for k, h in enumerate(rp["input_files_hex"]):
+            f = os.path.join(ctx.tmp, "in%d.warc" % k)
+            open(f, "wb").write(unhx(h))
+            files.append(f)
+        env = pvlib.san_env(dict(rp["env"], LD_PRELOAD=os.path.join(ctx.bdir, "harness", "faults_preload.so")))
+        env["ASAN_OPTIONS"] += ":verify_asan_link_order=0"
+        st, out, err = pvlib.run_tool([ctx.bin("warc_parallel"), "-j", "3", "-i"] + files + ["--", "cat"], b"", env=env, timeout=300)
+        got, e = frame_split(out) if st == 0 else ([], None)
+        print("status", st, "records out", len(got), "of", rp["records_in"], "framing error", e, err[-300:])
+        return
     impl = os.path.join(ctx.bdir, "harness", "implreader")
     if "ops" in rp:
         a = pvlib.run_lines(impl, rp["ops"], env=pvlib.san_env())
